@@ -74,6 +74,41 @@ def _assignee_of(call):
     return kwarg(call, "assignees", 0)
 
 
+def stmt_list_names(f: Func):
+    """Names of the list(s) that collect the statements a pass returns:
+    self.new_statements, or a local that is appended to and returned / handed
+    to an expression rewriter as new_statements=."""
+    out = {"self.new_statements"}
+    appended = set()
+    for x in ast.walk(f.node):
+        if isinstance(x, ast.Call) and isinstance(x.func, ast.Attribute) \
+                and x.func.attr in ("append", "extend") and isinstance(x.func.value, ast.Name):
+            appended.add(x.func.value.id)
+    for x in ast.walk(f.node):
+        if isinstance(x, ast.Return) and isinstance(x.value, ast.Name) and x.value.id in appended:
+            out.add(x.value.id)
+        if isinstance(x, ast.keyword) and x.arg == "new_statements" \
+                and isinstance(x.value, ast.Name):
+            out.add(x.value.id)
+    return out
+
+
+def dep_list_names(f: Func):
+    """Names of lists of statement ids that end up in a depends_on: the
+    extra_deps parameter, or locals occurring as frozenset(<name>) inside a
+    depends_on= keyword."""
+    out = set()
+    if "extra_deps" in f.params:
+        out.add("extra_deps")
+    for x in ast.walk(f.node):
+        if isinstance(x, ast.keyword) and x.arg == "depends_on":
+            for y in ast.walk(x.value):
+                if isinstance(y, ast.Call) and dotted(y.func) == "frozenset" and y.args \
+                        and isinstance(y.args[0], ast.Name):
+                    out.add(y.args[0].id)
+    return out
+
+
 def _names_in(e):
     return {x.id for x in ast.walk(e) if isinstance(x, ast.Name)} if e is not None else set()
 
@@ -102,6 +137,11 @@ def check(run, P):
     run.rule("C07.mapexpr", "map_expressions maps every field that feeds the read "
              "set (shared with C08.ident / C16.fields)", minimum=8)
 
+    run.rule("C07.readsets", "the read/write sets that seed the name generator cover "
+             "what statements touch (shared with C08.reads / C08.writes)", minimum=20)
+    from . import c08 as _c08, stmtmodel as _sm
+    _c08.reads_writes(run, P, _sm.statement_classes(P), "C07.readsets", "C07.readsets")
+
     m = P.module(MOD)
     _seed(run, P)
     funcs = []
@@ -127,31 +167,37 @@ def check(run, P):
 
 
 def _seed(run, P):
+    from .util import find, first, has
     f = P.func(f"{MOD}.apply_statement_rewriter")
-    src = ast.unparse(f.node)
-    ok = "statements = list(get_statements_in_ast(phase_ast))" in src
-    run.ob("C07.fresh", f, f.node, ok,
-           construct="statements = list(get_statements_in_ast(phase_ast))",
+    n, env = first("V_s = list(get_statements_in_ast(V_p))", f.node)
+    ok = n is not None and env["V_p"] in f.params
+    run.ob("C07.fresh", f, n if n is not None else f.node, ok,
+           construct="<statements> = list(get_statements_in_ast(<phase ast parameter>))",
            why="the generators must know every statement of the phase (a generator "
                "object would be exhausted by the first consumer)")
-    call = [n for n in ast.walk(f.node) if isinstance(n, ast.Call)
-            and dotted(n.func) == "rewriter_cls"]
-    ok = False
-    if call:
-        kws = {k.arg: norm(k.value) for k in call[0].keywords}
-        ok = kws.get("stmt_id_gen") == "get_stmt_id_generator(statements)" \
-            and kws.get("var_name_gen") == "get_var_name_generator(statements)"
-    run.ob("C07.fresh", f, call[0] if call else f.node, ok,
+    c = None
+    if ok:
+        hits = find("ANY(stmt_id_gen=get_stmt_id_generator(V_s), "
+                    "var_name_gen=get_var_name_generator(V_s))", f.node, {"V_s": env["V_s"]})
+        c = hits[0][0] if hits else None
+    run.ob("C07.fresh", f, c if c is not None else f.node, c is not None,
+           construct="rewriter(stmt_id_gen=get_stmt_id_generator(<statements>), "
+                     "var_name_gen=get_var_name_generator(<statements>))",
            why="ids and names must be generated against the ids / names in use")
     g = P.func(f"{MOD}.get_var_name_generator")
-    src = ast.unparse(g.node)
-    ok = "get_written_variables()" in src and "get_read_variables()" in src \
-        and "UniqueNameGenerator(existing_variables)" in src
+    lp = [x for x in ast.walk(g.node) if isinstance(x, ast.For) and dotted(x.iter) == g.params[0]]
+    ok = False
+    if lp and isinstance(lp[0].target, ast.Name):
+        v = lp[0].target.id
+        w = find(f"V_set.update({v}.get_written_variables())", lp[0])
+        r = find(f"V_set.update({v}.get_read_variables())", lp[0])
+        ok = bool(w) and bool(r) and w[0][1]["V_set"] == r[0][1]["V_set"] \
+            and has("UniqueNameGenerator(V_set)", g.node, {"V_set": w[0][1]["V_set"]})
     run.ob("C07.fresh", g, g.node, ok,
            construct="name generator seeded with read u written variables of all statements",
            why="a name in use that the generator does not know can be handed out again")
     h = P.func(f"{MOD}.get_stmt_id_generator")
-    ok = "UniqueNameGenerator({stmt.id for stmt in statements})" in ast.unparse(h.node)
+    ok = has(f"UniqueNameGenerator({{V_x.id for V_x in {h.params[0]}}})", h.node)
     run.ob("C07.fresh", h, h.node, ok,
            construct="id generator seeded with all statement ids",
            why="duplicate ids break dependency resolution")
@@ -182,6 +228,8 @@ def _per_ctor(run, P, f: Func):
     conds = _cond_derived(f)
     g = CFG(f.node)
     ctors = _ctor_calls(f)
+    lists = stmt_list_names(f)
+    deplists = dep_list_names(f)
 
     def node_of_call(c):
         for n in g.nodes:
@@ -204,7 +252,7 @@ def _per_ctor(run, P, f: Func):
         for x in walk_fragment(n.ast):
             if isinstance(x, ast.Call) and isinstance(x.func, ast.Attribute) \
                     and x.func.attr in ("append", "extend") \
-                    and (dotted(x.func.value) or "").endswith("new_statements") and x.args:
+                    and dotted(x.func.value) in lists and x.args:
                 a = x.args[0]
                 for y in ast.walk(a):
                     if isinstance(y, ast.Call) and dotted(y.func) in CTORS:
@@ -246,7 +294,7 @@ def _per_ctor(run, P, f: Func):
             for x in ast.walk(f.node):
                 if isinstance(x, ast.Call) and isinstance(x.func, ast.Attribute) \
                         and x.func.attr in ("append", "extend") \
-                        and dotted(x.func.value) in ("extra_deps", "tmp_stmt_ids") \
+                        and dotted(x.func.value) in deplists \
                         and idv.id in _names_in(x.args[0] if x.args else None):
                     reg = True
             if not reg:
@@ -258,7 +306,7 @@ def _per_ctor(run, P, f: Func):
                     isinstance(kwarg(o, "id"), ast.Name) and any(
                         isinstance(x, ast.Call) and isinstance(x.func, ast.Attribute)
                         and x.func.attr in ("append", "extend")
-                        and dotted(x.func.value) in ("extra_deps", "tmp_stmt_ids")
+                        and dotted(x.func.value) in deplists
                         and kwarg(o, "id").id in _names_in(x.args[0] if x.args else None)
                         for x in ast.walk(f.node)) for o in users)
             run.ob("C07.deps", f, c, reg,
@@ -267,7 +315,7 @@ def _per_ctor(run, P, f: Func):
                        "the statement that assigns it")
         if id(c) not in appends:
             run.ob("C07.order", f, c, False,
-                   construct=f"{kind}(...) is appended to new_statements",
+                   construct=f"{kind}(...) is appended to the list of new statements",
                    why="a constructed statement that is never appended is lost")
 
     # order: a variable introduced here and used in a condition passed to a
@@ -430,37 +478,40 @@ def _wrap(run, P):
 def _consumers(run, P):
     """map_statement of the three Statement* rewriters: the list passed as
     extra_deps ends up in depends_on of the rewritten statement."""
+    from .util import find, has
     m = P.module(MOD)
     for cname in ("StatementFunctionArgumentIsolator", "StatementFunctionCallIsolator",
                   "StatementIfThenElseExpander"):
         f = m.classes[cname].methods.get("map_statement")
         if f is None:
             raise AnalysisError(f"{cname}.map_statement not found")
+        stmt = f.params[1]
         lam = [n for n in ast.walk(f.node) if isinstance(n, ast.Lambda)]
         ok = False
         detail = ""
         if len(lam) == 1 and isinstance(lam[0].body, ast.Call):
             c = lam[0].body
             extra = dotted(c.args[-1]) if c.args else None
-            cond_ok = len(c.args) == 4 and norm(c.args[1]) == "stmt.condition" \
-                and norm(c.args[2]) in ("base_deps", "stmt.depends_on")
-            copies = [n for n in ast.walk(f.node) if isinstance(n, ast.Call)
-                      and isinstance(n.func, ast.Attribute) and n.func.attr == "copy"]
-            dep_ok = any(norm(kwarg(n, "depends_on") or ast.Constant(0)) ==
-                         f"stmt.depends_on | frozenset({extra})" for n in copies)
-            ok = cond_ok and dep_ok
+            base = norm(c.args[2]) if len(c.args) == 4 else ""
+            base_ok = base == f"{stmt}.depends_on" or has(
+                f"{base} = {stmt}.depends_on", f.node) if base.isidentifier() or "." in base else False
+            cond_ok = len(c.args) == 4 and norm(c.args[1]) == f"{stmt}.condition" and base_ok
+            dep_ok = bool(extra) and has(
+                f"ANY.copy(depends_on={stmt}.depends_on | frozenset({extra}))", f.node)
+            ok = bool(cond_ok and dep_ok)
             detail = f"lambda args {[norm(a) for a in c.args]}"
         run.ob("C07.deps", f, f.node, ok,
                construct=f"{cname}: rewritten statement depends on stmt.depends_on | "
                          f"frozenset(<ids of introduced statements>)",
                why="the rewritten statement reads the introduced variables", detail=detail)
-        # final statement appended after the helpers: the append wraps map_expressions
+        lists = stmt_list_names(f) - {"self.new_statements"}
         apps = [n for n in ast.walk(f.node) if isinstance(n, ast.Call)
-                and dotted(n.func) == "new_statements.append"]
+                and isinstance(n.func, ast.Attribute) and n.func.attr == "append"
+                and dotted(n.func.value) in lists]
         ok = len(apps) == 1 and any(isinstance(x, ast.Attribute) and x.attr == "map_expressions"
                                     for x in ast.walk(apps[0]))
         run.ob("C07.order", f, apps[0] if apps else f.node, ok,
-               construct="new_statements.append(stmt.map_expressions(...).copy(...)) is the last append",
+               construct="<new statements>.append(stmt.map_expressions(...).copy(...)) is the only append",
                why="helpers are appended while map_expressions runs, i.e. before the "
                    "rewritten statement that reads them")
 
@@ -498,7 +549,9 @@ def _arity(run, P):
 
 
 def _selfdep(run, P):
+    from .util import find, has
     f = P.func(f"{MOD}.SelfDependencyEliminator.map_statement")
+    stmt = f.params[1]
     loops = [n for n in ast.walk(f.node) if isinstance(n, ast.For)]
     if len(loops) != 1:
         raise AnalysisError("SelfDependencyEliminator.map_statement: one loop expected")
@@ -508,18 +561,30 @@ def _selfdep(run, P):
            construct=f"for {norm(lp.target)} in {norm(lp.iter)}",
            why="names and ids are allocated inside the loop; unordered iteration "
                "makes the rewritten text depend on the hash seed")
-    src = ast.unparse(f.node)
-    ok = "include_lhs=False" in src
+    ok = any(isinstance(x, ast.keyword) and x.arg == "include_lhs"
+             and isinstance(x.value, ast.Constant) and x.value.value is False
+             for x in ast.walk(f.node))
     run.ob("C07.selfdep", f, f.node, ok,
            construct="substitution applied with include_lhs=False",
            why="the assigned variable itself must not be renamed")
     g = CFG(f.node)
     loop_node = g.node_of(lp)
-    final = [n for n in g.nodes if n.kind == "stmt" and isinstance(n.ast, ast.Expr)
-             and "new_statements.append(new_stmt)" in ast.unparse(n.ast)]
-    ok = bool(final) and not g.always_preceded(final, [loop_node]) \
-        and "depends_on=stmt.depends_on | frozenset(tmp_stmt_ids)" in src
-    run.ob("C07.selfdep", f, final[0].ast if final else f.node, ok,
+    lists = stmt_list_names(f) - {"self.new_statements"}
+    deps = dep_list_names(f)
+    # the rewritten statement: a local assigned from stmt.map_expressions(...).copy(depends_on=...)
+    rew = find(f"V_new = {stmt}.map_expressions(ANY, include_lhs=False).copy("
+               f"depends_on={stmt}.depends_on | frozenset(V_ids))", f.node)
+    ok = False
+    site = f.node
+    if rew and rew[0][1]["V_ids"] in deps:
+        newv = rew[0][1]["V_new"]
+        final = [n for n in g.nodes if n.kind == "stmt" and any(
+            isinstance(x, ast.Call) and isinstance(x.func, ast.Attribute)
+            and x.func.attr == "append" and dotted(x.func.value) in lists
+            and x.args and dotted(x.args[0]) == newv for x in walk_fragment(n.ast))]
+        ok = bool(final) and not g.always_preceded(final, [loop_node])
+        site = final[0].ast if final else f.node
+    run.ob("C07.selfdep", f, site, ok,
            construct="copy-in statements are appended before the rewritten statement, "
                      "which depends on them",
            why="the rewritten statement reads the copies")
